@@ -814,7 +814,7 @@ pub fn run(focus: Focus, choices: &[u8], _strict: bool) -> Outcome {
     // quiet, no reader proxy may still have repair fragments on request - in production the
     // repair timer re-arms itself every millisecond for as long as one has
     if !o.is_violation() {
-      for _ in 0..20 {
+      for _ in 0..8 {
         node.fire_writer_timers(wi);
       }
       let _ = hooks::capture_drain();
